@@ -397,7 +397,7 @@ def run(ck, F):
     import c15 as _c15
     R_it = ck.rule('C14.iterator-steps', 'Sequence<T>::Iterator dereferences to get(index) of its sequence, ++ and -- move the index by exactly one '
                    '(whatever integer type the step is computed in), and == / != compare sequence and index: within bounds, iteration in '
-                   'either direction visits the elements positional access yields', floor=30)
+                   'either direction visits the elements positional access yields', floor=6)
     _c15.iterator_rule(ck, F, Sym(F, opaque=contracts.default_opaque(F), max_depth=24), R_it)
 
     # ---------------------------------------------------------------- no unchecked downcast
